@@ -184,9 +184,15 @@ func main() {
 		rec.Exit = 128 + 15
 	case "pipe":
 		rec.Exit = 128 + 13
+	case "quiet7":
+		rec.Exit = 7
 	}
 	appendLog(rec)
-	fmt.Fprintf(os.Stderr, "fatal: injected fault (%s) after %d bytes\n", fl.Mode, n)
+	// only a process that exits by itself can say why; one that is killed by a signal (or that
+	// just exits, "quiet7") leaves stderr empty
+	if fl.Mode == "exit128" || fl.Mode == "exit1" || fl.Mode == "stdinclose" {
+		fmt.Fprintf(os.Stderr, "fatal: injected fault (%s) after %d bytes\n", fl.Mode, n)
+	}
 	switch fl.Mode {
 	case "kill":
 		syscall.Kill(os.Getpid(), syscall.SIGKILL)
